@@ -415,6 +415,29 @@ func (ex *Exec) callContractVars(c *Contract, params []*types.Var, sig *types.Si
 		}
 	}
 	ex.used["contract: "+c.Name] = true
+	if ex.pure == 0 {
+		// history variables: the arguments of the most recent call are observable as lastarg(fn, param)
+		r0 := "true"
+		if reach != nil {
+			r0 = *reach
+		}
+		for i, p := range params {
+			if i >= len(args) {
+				break
+			}
+			ex.lastArgTypes[c.Name+"."+p.Name()] = p.Type()
+			ls := leaves(p.Type())
+			for j, l := range ls {
+				if j >= len(args[i].L) {
+					break
+				}
+				rk := fmt.Sprintf("X|lastarg.%s.%s.%d", c.Name, p.Name(), j)
+				ex.registerKey(rk, l.Sort)
+				prev := ex.heapGet(st, rk, l.Sort)
+				st.H[rk] = ex.name("larg", ite(r0, args[i].L[j], prev), l.Sort)
+			}
+		}
+	}
 	if c.Trusted {
 		why := c.TrustWhy
 		if why == "" {
